@@ -28,14 +28,15 @@ ENCODED = [processing.process_resource_event, processing.process_resource_causes
            application.apply, application.patch_and_check, progression.State.store, progression.State.purge,
            diffbase.AnnotationsDiffBaseStorage.store, diffbase.DiffBaseStorage.build]
 META = {
-    'bounds': 'one object; handlers: create + update (+ mandatory delete handler cell); history prefix of <=3 (quick) / <=4 (thorough) '
+    'bounds': 'one object; handlers: create + update (+ mandatory delete handler cell; + an update handler on field spec.a with the steps "edit a" / "revert a, edit x" cell); history prefix of <=3 (quick) / <=4 (thorough) '
               'steps from {essential edit, graceful restart, kill before apply, kill after apply, downtime with 2 accumulated edits, '
               'next handler invocation fails temporarily, delete request}; quiescence bounded by 14 further events; T-concrete (delays 5 s).',
     'outside': 'unbounded liveness (checked as termination within the bound); several objects; watch-stream level re-listing (C19)',
     'stubs': ['api.patch -> FakeServer', 'kill = BaseException out of the API request; restart = new memories + listing event'],
     'assumptions': ['after a (re)start the object is re-delivered by the initial listing', 'the echo of every write is eventually delivered in order'],
 }
-STEPS = ['edit', 'restart', 'kill_before', 'kill_after', 'downtime', 'fail_next', 'delete', 'conflict_next']
+STEPS = ['edit', 'restart', 'kill_before', 'kill_after', 'downtime', 'fail_next', 'delete', 'conflict_next',
+         'edit_a', 'revert_a_edit_x']     # (the last two only in cells with a field-filtered update handler)
 
 
 def run_history(cell, steps, kill_req):
@@ -45,11 +46,13 @@ def run_history(cell, steps, kill_req):
     w.add_handler(kopf.on.update, 'hu')
     if cell.get('delete_handler'):
         w.add_handler(kopf.on.delete, 'hd')
+    if cell.get('field_handler'):
+        w.add_handler(kopf.on.update, 'hf', field='spec.a')     # selected only by changes of spec.a
     info = {'downtime_lhc': None, 'downtime_at': None}
 
     def fail_next():
         # the next invocation of whatever handler runs fails temporarily (finitely many failures)
-        for hid in ('hc', 'hu', 'hd'):
+        for hid in ('hc', 'hu', 'hd', 'hf'):
             n = len([i for i in w.invocations if i['id'] == hid])
             seq = w.outcomes.setdefault(hid, [])
             while len(seq) <= n:
@@ -84,6 +87,12 @@ def run_history(cell, steps, kill_req):
                     w.needs_listing = True
                 elif name == 'fail_next':
                     fail_next()
+                elif name == 'edit_a':
+                    w.server.write(lambda o: o['spec'].update(a=o['spec'].get('a', 0) + 1))
+                elif name == 'revert_a_edit_x':
+                    # the field goes back to its last-handled value while something else changes: the field handler is
+                    # no longer selected, whatever state it was left in
+                    w.server.write(lambda o: (o['spec'].pop('a', None), o['spec'].update(x=o['spec']['x'] + 1)))
                 elif name == 'delete':
                     w.server.write(lambda o: o['metadata'].update(deletionTimestamp='2020-01-01T00:00:00Z'))
                 elif name == 'conflict_next':
@@ -119,7 +128,7 @@ def run_history(cell, steps, kill_req):
 
 def h_converge(s0: int, s1: int, s2: int, s3: int, kill_req: int) -> bool:
     """
-    pre: 0 <= s0 <= 7 and 0 <= s1 <= 7 and 0 <= s2 <= 7 and 0 <= s3 <= 7 and 0 <= kill_req <= 1
+    pre: 0 <= s0 <= 9 and 0 <= s1 <= 9 and 0 <= s2 <= 9 and 0 <= s3 <= 9 and 0 <= kill_req <= 1
     post: _ == True
     """
     vkopf.begin_path()
@@ -127,6 +136,8 @@ def h_converge(s0: int, s1: int, s2: int, s3: int, kill_req: int) -> bool:
     s0, s1, s2 = vkopf.pin('s0', s0), vkopf.pin('s1', s1), vkopf.pin('s2', s2)
     n = c.get('n', 3)
     steps = [s0, s1, s2, s3][:n]
+    if not c.get('field_handler') and any(s > 7 for s in steps):
+        return True
     storage = c.get('storage', 'smart')
     try:
         w, info = run_history(c, steps, kill_req)
@@ -165,10 +176,16 @@ def h_converge(s0: int, s1: int, s2: int, s3: int, kill_req: int) -> bool:
 
 def obligations():
     obs = []
-    S = list(range(len(STEPS)))
+    S = list(range(8))
     obs += split(Ob('h_converge', {'storage': 'smart', 'n': 2}, timeout=1200, path_timeout=300,
                     twins=['converged_live', 'accumulated', 'deleted']), s0=S)
     obs += split(Ob('h_converge', {'storage': 'smart', 'n': 2, 'delete_handler': True}, timeout=1200, path_timeout=300), s0=[7, 0, 6])
+    # a handler that a later change deselects while it is still retrying (its record must go all the same)
+    for (a, b, c3) in ((5, 8, 9), (8, 9, 0), (8, 5, 9)):
+        obs.append(Ob('h_converge', {'storage': 'smart', 'n': 3, 'field_handler': True, 'pin': {'s0': a, 's1': b, 's2': c3}}, timeout=900,
+                      path_timeout=300))
+    obs += split(Ob('h_converge', {'storage': 'annotations', 'n': 3, 'field_handler': True}, tiers=('thorough',), timeout=1800, path_timeout=300),
+                 s0=[5, 8, 0], s1=[8, 9, 5], s2=[9, 8, 1, 3])
     obs += split(Ob('h_converge', {'storage': 'status', 'n': 3}, tiers=('thorough',), timeout=3000, path_timeout=300), s0=S, s1=S)
     obs += split(Ob('h_converge', {'storage': 'smart', 'n': 3, 'delete_handler': True}, tiers=('thorough',), timeout=3000, path_timeout=300),
                  s0=S, s1=S)
